@@ -121,6 +121,18 @@ class C12(OutstationProp):
                 continue
             fn = b[1]
             idle = any(" info idle_request " in l for l in lines)
+            # a fragment rejected at header level (unknown function code, FIR/FIN/UNS not those of a request) is
+            # answered with IIN2.0 and its own sequence number IN EVERY SESSION STATE (idle, either confirm wait)
+            unk = [x for x in dtoks if x.startswith("hp=unkfn")]
+            rvbad = "hp=ok" in dtoks and "rv=ok" not in dtoks and any(x.startswith("rv=") for x in dtoks)
+            if unk or rvbad:
+                q = int(unk[0].split(":")[1]) if unk else b[0] & 15
+                if not sol:
+                    fails.append(("header-error-silent", "fragment %s rejected at header level (%s) was answered with silence"
+                                  % (b.hex()[:12], (unk or [x for x in dtoks if x.startswith("rv=")])[0])))
+                elif not any((x[3] & 1) and (x[0] & 15) == q for x in sol):
+                    fails.append(("header-error-not-reported", "fragment %s rejected at header level answered with %s"
+                                  % (b.hex()[:12], sol[0].hex()[:12])))
             if ok_hdr and fn in NO_REPLY and "obj=ok" in dtoks and sol and idle and fn != 0:
                 fails.append(("reply-to-no-ack-function", "function %d must never be answered, got %s" % (fn, sol[0].hex()[:16])))
             if ok_hdr and fn == 0 and sol and idle:
